@@ -16,13 +16,15 @@ From Verif.Model Require Export Mode.
 
 Inductive op :=
 | DEmit (r : reachability)                       (* emit on the bus (and wait until everything is quiet or parked) *)
-| DNewStream (s : nat) (k : skind) (held : bool) (* offer a stream to the host; held: do not start its handler yet *)
+| DNewStream (s : nat) (k : skind) (held neg : bool)
+                                                 (* offer a stream to the host; held: do not start its handler yet;
+                                                    neg (held streams): its protocol is not set until it is started *)
 | DStart (s : nat)                               (* start the handler goroutine of a held stream (ignored in the window) *)
 | DMsg (s : nat) (good : bool)                   (* write one request on s (ignored unless s is being read) *)
 | DEOF (s : nat)                                 (* remote closes its side of s *)
 | DRelease.                                      (* open the gate inside moveToClientMode *)
 
-Record sobs := { so_id : nat; so_kind : skind; so_handled : nat; so_rst : bool; so_closed : bool }.
+Record sobs := { so_id : nat; so_kind : skind; so_vis : bool; so_handled : nat; so_rst : bool; so_closed : bool }.
 Record snap := { o_mode : option mode; o_handler : bool; o_window : bool; o_streams : list sobs }.
 
 (* short constructors for the generated case files *)
@@ -45,7 +47,8 @@ Fixpoint first_ready (held : list nat) (l : list stream) : option event :=
   match l with
   | [] => None
   | x :: rest =>
-      if skind_eqb (kind x) KInDHT && phase_eqb (ph x) PStart && negb (mem (sid x) held) then Some (EModeRead (sid x))
+      if skind_eqb (kind x) KInDHT && phase_eqb (ph x) PStart && negb (mem (sid x) held)
+      then Some (if vis x then EModeRead (sid x) else EAnnounce (sid x))
       else if skind_eqb (kind x) KInDHT && phase_eqb (ph x) PRead && rst x then Some (EReadErr (sid x))
       else first_ready held rest
   end.
@@ -71,11 +74,11 @@ Definition settled (x : g) : g := settle (fuel_of x) x.
 Definition exec (x : g) (o : op) : g :=
   match o with
   | DEmit r => settled (apply_ev x (EEmit r))
-  | DNewStream i k held =>
+  | DNewStream i k held neg =>
       match find_stream i (streams (g_st x)) with
       | Some _ => x
       | None =>
-          let x1 := apply_ev x (ENewStream i k) in
+          let x1 := apply_ev x (ENewStream i k (held && neg)) in
           let accepted := match find_stream i (streams (g_st x1)) with Some _ => true | None => false end in
           let x2 := if accepted && held && skind_eqb k KInDHT
                     then {| g_st := g_st x1; g_held := i :: g_held x1; g_gated := g_gated x1 |} else x1 in
@@ -90,7 +93,7 @@ Definition exec (x : g) (o : op) : g :=
   end.
 
 Definition obs_stream (x : stream) : sobs :=
-  {| so_id := sid x; so_kind := kind x; so_handled := handled x; so_rst := rst x; so_closed := closed x |}.
+  {| so_id := sid x; so_kind := kind x; so_vis := vis x; so_handled := handled x; so_rst := rst x; so_closed := closed x |}.
 Definition snapshot (x : g) : snap :=
   {| o_mode := Some (cur (g_st x)); o_handler := handler (g_st x); o_window := switching (g_st x);
      o_streams := map obs_stream (streams (g_st x)) |}.
@@ -112,7 +115,8 @@ Fixpoint list_eqb {A} (eq : A -> A -> bool) (a b : list A) : bool :=
 Definition omode_eqb (a b : option mode) : bool :=
   match a, b with Some x, Some y => mode_eqb x y | None, None => true | _, _ => false end.
 Definition sobs_eqb (a b : sobs) : bool :=
-  Nat.eqb (so_id a) (so_id b) && skind_eqb (so_kind a) (so_kind b) && Nat.eqb (so_handled a) (so_handled b)
+  Nat.eqb (so_id a) (so_id b) && skind_eqb (so_kind a) (so_kind b) && Bool.eqb (so_vis a) (so_vis b)
+  && Nat.eqb (so_handled a) (so_handled b)
   && Bool.eqb (so_rst a) (so_rst b) && Bool.eqb (so_closed a) (so_closed b).
 Definition snap_eqb (a b : snap) : bool :=
   omode_eqb (o_mode a) (o_mode b) && Bool.eqb (o_handler a) (o_handler b) && Bool.eqb (o_window a) (o_window b)
@@ -182,7 +186,7 @@ Definition check_step (a : mode_opt) (m0 : mode) (ac : acc) (pre post : snap) (o
   (* a client never accepts a new inbound DHT stream; a handler started in a settled client resets its stream *)
   let client_ok :=
     match o with
-    | DNewStream i KInDHT _ =>
+    | DNewStream i KInDHT _ _ =>
         if is_client pre then match get i (o_streams post) with Some _ => false | None => true end else true
     | DStart i =>
         if settled_client pre then
@@ -195,11 +199,12 @@ Definition check_step (a : mode_opt) (m0 : mode) (ac : acc) (pre post : snap) (o
     end in
   (* 4: once moveToClientMode has returned every inbound DHT stream is reset (or was closed in order) *)
   let demote_ok :=
-    if settled_client post then forallb (fun y => negb (is_in y) || so_rst y || so_closed y) (o_streams post) else true in
+    if settled_client post
+    then forallb (fun y => negb (is_in y) || negb (so_vis y) || so_rst y || so_closed y) (o_streams post) else true in
   (* 5: a server accepts inbound DHT streams and answers good requests on started, open, un-reset streams *)
   let server_ok :=
     match o with
-    | DNewStream i KInDHT _ =>
+    | DNewStream i KInDHT _ _ =>
         if is_server pre then
           match get i (o_streams pre), get i (o_streams post) with
           | None, None => false
@@ -220,7 +225,7 @@ Definition check_step (a : mode_opt) (m0 : mode) (ac : acc) (pre post : snap) (o
     end in
   let started' :=
     match o with
-    | DNewStream i KInDHT false => i :: a_started ac
+    | DNewStream i KInDHT false _ => i :: a_started ac
     | DStart i => if o_window pre then a_started ac else i :: a_started ac
     | _ => a_started ac
     end in
